@@ -849,8 +849,8 @@ def r11(k: Kit) -> None:
              'window and certificate validity by the verifier\'s UTC offset')
     fi = k.func('misc.parse_time')
     g = k.cfg(fi)
-    st = [(nd, v) for nd, v in k.stores_to(fi, 'dt') if v is not None]
-    rep.floor('C16.R11', 'datetime computations', len(st), 2)
+    st = [(nd, nd.ast.value) for nd in g.nodes
+          if isinstance(nd.ast, ast.Assign) and nd.ast.value is not None]
     utc = [(nd, v) for nd, v in st if any(
         dotted(x) == 'timezone.utc' for x in ast.walk(v))]
     rep.floor('C16.R11', 'UTC branch', len(utc), 1)
